@@ -18,7 +18,9 @@ ASSUMPTIONS = [
 
 def run(tier, seed):
     kvw.PID[0] = "C10"
-    return kvw.suites_c10(tier, seed)
+    from .. import kvm, common
+    common.PID_ALIAS.update({"KVM": "C10"})
+    return kvw.suites_c10(tier, seed) + [kvm.suite_access_paths(tier, seed)]
 
 
 def replay(payload):
